@@ -6,7 +6,7 @@ import cgw
 import fullstack
 from framework import PropertyCheck
 
-KINDS = ["error", "rstack", "silent", "naksilent", "lost", "eof"]
+KINDS = ["error", "rstack", "silent", "naksilent", "mutethencut", "lost", "eof"]
 WORKLOADS = ["idle", "inflight", "queued", "reset"]
 BOUND = 10 + 5 * 3.2 + 0.5          # command timeout + sum of link timeouts (+ slack for scheduling)
 
@@ -34,6 +34,11 @@ def run_full(workload, kind, position, when="before", ncp_v=8, close_instead=Fal
             s.line.flush()
         elif kind == "silent":
             s.line.cut = True
+        elif kind == "mutethencut":
+            # the NCP still acknowledges frames but no longer answers commands (a command then ends by its own time-out and
+            # leaves its bookkeeping behind); a few seconds later the line goes dead altogether
+            s.ncp.mute_ezsp = True
+            s.loop.call_later(4.0, setattr, s.line, "cut", True)
         elif kind == "naksilent":
             # the NCP answers the next DATA frame with a NAK (it arrived damaged) and is never heard of again
             import ashref
@@ -120,13 +125,20 @@ def run_full(workload, kind, position, when="before", ncp_v=8, close_instead=Fal
             return
         if st["injected_at"] is None:
             inject()                                                   # workload finished first: fail now
-        if kind in ("silent", "naksilent") and not close_instead:
+        if kind in ("silent", "naksilent", "mutethencut") and not close_instead:
             # a silent NCP shows only when something is sent to it
             tasks.append(s.spawn(cmd("probe", lambda: s.ez.nop())))
             try:
                 await tasks[-1]
             except BaseException:  # noqa
                 pass
+            if kind == "mutethencut":
+                # the first probe was still acknowledged and ended by the command time-out; the next one meets the dead line
+                tasks.append(s.spawn(cmd("probe2", lambda: s.ez.nop())))
+                try:
+                    await tasks[-1]
+                except BaseException:  # noqa
+                    pass
         # give the failure time to propagate, then try a new command
         await asyncio.sleep(30)
         wb = len(s.serial.written)
@@ -166,7 +178,7 @@ def judge_full(case, out):
     if ti is None:
         return None
     r = out["res"].get("r")
-    if not out["reset_requests"] and kind in ("silent", "naksilent") and r is not None and r[0].startswith("raise") and r[1] - ti <= 5 + 0.5:
+    if not out["reset_requests"] and kind in ("silent", "naksilent", "mutethencut") and r is not None and r[0].startswith("raise") and r[1] - ti <= 5 + 0.5:
         # an NCP that falls silent while a reset handshake is in progress: there is no DATA traffic to go
         # unacknowledged; the failure is reported to the caller of the reset, which raises within the reset
         # timeout, and EZSP stays stopped (see DESIGN.md, C10 reading)
@@ -177,7 +189,7 @@ def judge_full(case, out):
         if k in ("after", "after_time", "after_writes"):
             continue
         outcome, tdone = v
-        if tdone - ti > BOUND and k != "probe":
+        if tdone - ti > BOUND and k not in ("probe", "probe2"):
             return f"command {k} in progress at the failure ended {tdone - ti:.1f}s after it (bound {BOUND}s)"
     a = out["res"].get("after")
     if a is None or not a[0].startswith("raise"):
@@ -196,7 +208,7 @@ class Check(PropertyCheck):
     shard = 400
     rule = ("(a) gateway-level histories (failure codes, losses, EOF, deliberate close, commands, resets; upward calls singly and back to "
             "back) compared with the Coq model; (b) full stack in virtual time: workloads {idle, command in flight, commands queued, reset in "
-            "progress} x failure kinds {ERROR, unsolicited RSTACK, silent NCP, NCP that NAKs once and then falls silent, connection_lost, EOF} injected before and after every wire "
+            "progress} x failure kinds {ERROR, unsolicited RSTACK, silent NCP, NCP that NAKs once and then falls silent, NCP that stops answering commands and then goes dead, connection_lost, EOF} injected before and after every wire "
             "event, plus deliberate close, plus the same failures after an earlier failure that hit before the application registered, judged by the property predicate; non-trivial = a failure is injected; distinct by scenario")
     assumptions = ["threaded mode (use_thread=True) is outside this check (C20)",
                    "simulated NCP and line (harness/fullstack.py)"]
